@@ -188,6 +188,9 @@ fn battery(bseed: u64, thorough: bool) -> Vec<Inp> {
         (0, 512 + 37),
         (1u64 << 32, 300),            // low counter word carries inside a wide refill
         (64 * ((1u64 << 32) - 2), 300), // 32-bit block counter boundary (djb / x: carry into word 1)
+        (64 * ((1u64 << 31) - 2) + 9, 300), // low counter word gets its top bit
+        (64 * ((1u64 << 48) - 3) + 5, 450), // high counter word carries into its upper half-word (blocks 2^48)
+        (64 * ((1u64 << 57) - 2), 200),     // high counter word: 0x01ffffff -> 0x02000000
     ];
     for (vi, var) in VARS.iter().enumerate() {
         for (si, &(pos, len)) in shapes.iter().enumerate() {
@@ -196,7 +199,7 @@ fn battery(bseed: u64, thorough: bool) -> Vec<Inp> {
             }
             let mut pos = pos;
             if var.v == 1 && pos >= 64 * ((1u64 << 32) - 2) {
-                pos = 64 * ((1u64 << 32) - 6); // Ietf: stay inside the 2^32-block stream
+                pos = 64 * ((1u64 << 32) - 6) - (si as u64 % 4) * 64 * (1 << 16); // Ietf: stay inside the 2^32-block stream
             }
             let key = rng.bytes(32);
             let nonce = rng.bytes(var.nonce_len);
@@ -224,13 +227,15 @@ fn battery(bseed: u64, thorough: bool) -> Vec<Inp> {
         v.push(Inp::Stream { var: vi as u8, key, nonce, pos, data });
     }
     // --- guts block API
-    let ctrs: &[u64] = &[0, 1, 0xffff_fffe, 0xffff_ffff, u64::MAX - 2, u64::MAX, 0x1234_5678_9abc_def0];
+    let ctrs: &[u64] = &[0, 1, 0xffff_fffe, 0xffff_ffff, u64::MAX - 2, u64::MAX, 0x1234_5678_9abc_def0,
+        // the increment changes both half-words of a counter word / sets a top bit
+        0x0000_ffff_ffff_ffff, 0x1234_ffff_ffff_fffe, 0x7fff_ffff_ffff_ffff, 0x0000_0000_7fff_ffff, 0xfffe_ffff_ffff_fffd, 0x0000_0001_0000_ffff];
     for (i, &ctr) in ctrs.iter().enumerate() {
         for wide in [false, true] {
-            if !thorough && (i + wide as usize) % 2 == 1 && i > 1 {
+            if !thorough && (i + wide as usize) % 2 == 1 && i > 1 && i < 7 {
                 continue;
             }
-            let dr = [10u32, 4, 6, 0, 1, 10, 3][i];
+            let dr = [10u32, 4, 6, 0, 1, 10, 3, 10, 4, 6, 10, 1, 10][i];
             v.push(Inp::Refill { wide, key: rng.bytes(32), ctr, id: rng.word64(), dr });
         }
     }
